@@ -236,6 +236,9 @@ def write_replay(pid, data):
     return path
 
 
+CURRENT = None
+
+
 class Check:
     """Collects what one run of one property's check did, then writes evidence and the verdict."""
 
@@ -252,6 +255,8 @@ class Check:
         self.proof = None
         self.known = [e for e in load_known() if e.get('property') == pid and e.get('status') == 'known']
         self.rnd = random.Random(seed)
+        global CURRENT
+        CURRENT = self           # the watchdogs of check.py finish the check that is running, with what it has found so far
 
     def sample(self, x):
         if len(self.samples) < 6:
@@ -319,3 +324,26 @@ class Check:
               f'classes={len(self.classes)} obligations={cov["obligations"]}/{cov["discharged"]} '
               f'violations={nviol} known={len(self.known_hits)} wall={wall:.1f}s')
         return exit_code
+
+
+class CallTimeout(BaseException):
+    pass
+
+
+def call_with_timeout(fn, secs=30):
+    """fn() under a SIGALRM watchdog (main thread only): returns ('ok', value), ('raise', exception) or ('timeout', None)."""
+    import signal
+
+    def on_alarm(signum, frame):
+        raise CallTimeout()
+    old = signal.signal(signal.SIGALRM, on_alarm)
+    signal.alarm(secs)
+    try:
+        return ('ok', fn())
+    except CallTimeout:
+        return ('timeout', None)
+    except Exception as ex:
+        return ('raise', ex)
+    finally:
+        signal.alarm(0)
+        signal.signal(signal.SIGALRM, old)
